@@ -184,6 +184,8 @@ class History:
         self._dirty_finish = set()
         self._late_started = set()
         self._native_in_gexit = set()
+        self._gexit_interrupted = set()   # hosts: the host has been interrupted inside this __aexit__
+        self._gexit_cut = {}              # host -> (step, visible cancelled outer scope, where the host is parked)
         self._native_before_start = set()
         self._to_group_errors = {}
         self._req_vis = {}
@@ -227,6 +229,8 @@ class History:
                     # later): the lower bound on cancelling() is only meaningful for programs that never do that
                     uncancelled_by_program.add(t)
                 elif c == S.GEXIT:
+                    self._gexit_cut.pop(t, None)
+                    self._gexit_interrupted.discard(t)
                     errs = [x for x in (hb[1] if hb else []) if not is_cancel_code(x)]
                     expected.setdefault(b, []).extend(errs)
                     if hb and hb[0] and any(is_cancel_code(x) for x in hb[1]):
@@ -314,6 +318,22 @@ class History:
                         self.check_containment(t, origins, prev, i, shield_events)
                     if op0[0] == S.SHIELDCK and any(o > 0 for o in origins):
                         self.v("C08", f"step {i}: cancel_shielded_checkpoint of task {t} was interrupted by AnyIO cancellation {origins}")
+                    if op0[0] == S.CKIF:
+                        # every re-check of the spin of checkpoint_if_cancelled, not only its entry (F46)
+                        vis = ref_eff_cancelled(prev, prev["tasks"][t]["cur"])
+                        if res[0] == "blocked":
+                            self.flags.add("ckif_respin")
+                            if not vis:
+                                msg = (f"step {i}: task {t} is run inside checkpoint_if_cancelled and suspends again although no "
+                                       f"cancelled scope is visible from its current scope {prev['tasks'][t]['cur']} any more: it "
+                                       f"spins on sleep(0) with nothing left to deliver")
+                                self.v("C08", msg)
+                                self.v("C03", msg)
+                        elif res[0] == "ret":
+                            self.flags.add("ckif_spin_released")
+                            if vis:
+                                self.v("C08", f"step {i}: the spin of checkpoint_if_cancelled of task {t} returned normally although "
+                                              f"scope {vis} is cancelled and visible from its current scope")
                     if res[0] != "blocked":
                         del pending[t]
                         start_joining.discard(t)
@@ -408,6 +428,15 @@ class History:
                         self.v("C04", f"step {i}: a native cancellation interrupted task {t} inside the __aexit__ of group {b0} (no error was pending), but it did not come out of the block: result {r}")
                         self.v("C05", f"step {i}: a native cancellation request reached task {t} while it waited inside the __aexit__ of group {b0}; the block ended with {r} and the request was dropped (a native asyncio.timeout / Task.cancel() around the group is lost)")
                 if c0 == S.GEXIT:
+                    cut = self._gexit_cut.pop(t, None)
+                    self._gexit_interrupted.discard(t)
+                    if cut and cut[3] and b0 not in tainted_groups and not (r[0] == "exc" and any(is_cancel_code(x) for x in r[2])) \
+                            and not any(tt == t for (_j, tt) in ext_events):
+                        self.v("C02", f"step {i}: the cancellation of the enclosing scope {cut[3]} did not pass through the block of "
+                                      f"group {b0}: the host (task {t}) was waiting in __aexit__ for the remaining children (parked in "
+                                      f"scope {cut[2]}), the delivery of the cancelled scope {cut[1]} at step {cut[0]} left it alone "
+                                      f"although it had not been interrupted yet, and the cancelled enclosing scope became visible from "
+                                      f"the group's scope while it was still waiting; the block ended with {r}")
                     self.on_group_left(b0, r, snap, i, members, expected, finished_with)
                     if not snap["scopes"][group_scope.get(b0, 0)]["active"] if group_scope.get(b0) else True:
                         left_at[b0] = i
@@ -440,6 +469,37 @@ class History:
                         # a cancellation request was placed on tt in this step: what was visible from its scope then
                         before_vis = set(ref_visible_cancelled_set(prev, pk_["cur"])) if pk_["cur"] else set()
                         self._req_vis.setdefault(tt, set()).update(before_vis | vis)
+            # a host waiting in __aexit__ is still inside the group's scope: the delivery run of the cancelled scope that is
+            # responsible for it (the nearest cancelled scope visible from the group's scope, the group's own included)
+            # must reach it, unless it has already been interrupted in this __aexit__ or is about to wake up anyway.  If
+            # it did not, and a cancelled ENCLOSING scope is visible from the group's scope while the host still waits,
+            # that cancellation has to come out of the block.
+            for a_, (op_, i_, snap_, _hb) in pending.items():
+                if op_[0] != S.GEXIT or a_ in uncancelled_by_program or self.real:
+                    continue
+                gs_ = group_scope.get(op_[2])
+                tk_ = snap["tasks"].get(a_)
+                if not gs_ or tk_ is None or gs_ not in prev["scopes"] or a_ not in prev["tasks"]:
+                    continue
+                if tk_["ncancel"] != snap_["tasks"][a_]["ncancel"] or tk_["must"] or snap_["tasks"][a_]["must"] \
+                        or (c in (S.RUNSTEP, S.RUNWAKE) and a == a_) or any(tt == a_ and j >= i_ for (j, tt) in ext_events):
+                    # (conservative: any step the host ran inside this __aexit__ may have been an interruption)
+                    self._gexit_interrupted.add(a_)
+                    self._gexit_cut.pop(a_, None)
+                if a_ in self._gexit_interrupted:
+                    continue
+                scg_ = prev["scopes"][gs_]
+                waiting = tk_["state"] == 2 and prev["tasks"][a_]["state"] == 2 \
+                    and not any((k_ + a_) in prev["ready"] or (k_ + a_) in snap["ready"] for k_ in (1000, 2000)) and snap["groups"].get(op_[2], {}).get("ntasks", 0) > 0
+                cur_ = tk_["cur"]
+                if not scg_["active"] or not waiting or not cur_ or snap["scopes"][cur_]["parent"] != gs_:
+                    continue
+                if c == S.RUNDELIVER and a_ not in self._gexit_cut and ref_eff_cancelled(prev, gs_) == a:
+                    self._gexit_cut[a_] = [i, a, cur_, 0]
+                if a_ in self._gexit_cut and not self._gexit_cut[a_][3] and not scg_["shield"] and scg_["parent"]:
+                    outer = ref_eff_cancelled(snap, snap["scopes"][gs_]["parent"]) if not snap["scopes"][gs_]["shield"] else 0
+                    if outer:
+                        self._gexit_cut[a_][3] = outer
             for gs in self._failed_group_scopes:
                 scg = snap["scopes"].get(gs)
                 if scg and scg["active"] and not ref_eff_cancelled(snap, gs) and gs not in self._f23_reported:
@@ -854,7 +914,8 @@ def scheck(pid: str, tier: str, extra_assumptions=None, known=None) -> int:
     for f in sorted(corpus_dir.glob("*.json")) if corpus_dir.exists() else []:
         if json.loads(f.read_text()).get("real_only"):
             continue                      # a history recorded on a real loop: replayed in the real-loop part only
-        w = sgen.replay(json.loads(f.read_text())["ops"], tolerant=True)
+        data_ = json.loads(f.read_text())
+        w = sgen.adaptive(data_["adaptive"]) if data_.get("adaptive") else sgen.replay(data_["ops"], tolerant=True)
         runs.append(w)
         n_corpus += 1
         if w.incomplete:
